@@ -32,6 +32,9 @@ def run_property(pid, tier, root=None, overlay=None, write=True, quiet=False, se
         mod.check(repo, ctx, index, purity)
         ctx.analysed['call_sites'] = purity.resolved_calls
         shared_templates(pid, repo, ctx)
+        ctx.extra['normalisation'] = {'steps': len(getattr(repo, 'norm_log', []) or []), 'error': getattr(repo, 'norm_error', None)}
+        if getattr(repo, 'norm_error', None):
+            ctx.advisory(f'normalisation pass failed ({repo.norm_error}); the rules ran on the tree as written')
     except AnalysisError as e:
         ctx.undecided('engine', '', '', 0, f'{type(e).__name__}: {e}')
     except Exception as e:                       # a traceback must never look like a violation
